@@ -13,5 +13,13 @@ theorem fact_cpool_Start : F1.Generated.skel_cpool_Start = F1.Expected.skel_cpoo
 theorem fact_cpool_startWorker : F1.Generated.skel_cpool_startWorker = F1.Expected.skel_cpool_startWorker := by rfl
 theorem fact_manager_makeIterationStatePool : F1.Generated.skel_manager_makeIterationStatePool = F1.Expected.skel_manager_makeIterationStatePool := by rfl
 theorem fact_jobCounter_take : F1.Generated.skel_jobCounter_take = F1.Expected.skel_jobCounter_take := by rfl
+theorem fact_manager_NewTriggerPool : F1.Generated.skel_manager_NewTriggerPool = F1.Expected.skel_manager_NewTriggerPool := by rfl
+theorem fact_manager_NewContinuousPool : F1.Generated.skel_manager_NewContinuousPool = F1.Expected.skel_manager_NewContinuousPool := by rfl
+theorem fact_pool_new : F1.Generated.skel_pool_new = F1.Expected.skel_pool_new := by rfl
+theorem fact_cpool_new : F1.Generated.skel_cpool_new = F1.Expected.skel_cpool_new := by rfl
+theorem fact_users_NewWorker : F1.Generated.skel_users_NewWorker = F1.Expected.skel_users_NewWorker := by rfl
+theorem fact_active_newIterationState : F1.Generated.skel_active_newIterationState = F1.Expected.skel_active_newIterationState := by rfl
+theorem fact_f1_CombineScenarios : F1.Generated.skel_f1_CombineScenarios = F1.Expected.skel_f1_CombineScenarios := by rfl
+theorem fact_api_NewIterationWorker : F1.Generated.skel_api_NewIterationWorker = F1.Expected.skel_api_NewIterationWorker := by rfl
 
 end F1.Props.FactsC04
